@@ -17,7 +17,7 @@ import json
 import os
 import re
 
-from . import impl
+from . import impl, thunkrun
 from .gen import ProgramGen, render
 from .shrink import shrink_lines
 
@@ -210,6 +210,54 @@ def _limit_values():
     return out
 
 
+def _operand_kind_matrix():
+    """every infix operator x every kind of left operand x every kind of right operand, in both orders: a number, a
+    constant defined before / after, a label before / after, a label at offset 0, '.', a difference of labels - the
+    arithmetic of values that are still symbolic (polynomials over the base) has one method per operator *and side*"""
+    kinds = ["2", "c1", "c2", "lb1", "lb2", "lb0", ".", "<lb2 - lb1>", "<lb1 + 2>"]
+    out = []
+    for op in INFIX:
+        for left in kinds:
+            for right in kinds:
+                e = "%s %s %s" % (left, op, right)
+                out.append((op, "lb0: c1 = 5\nnop\nlb1: nop\n.word %s\nbuf: .blkb 2 * <lb2 - lb1>\n.even\nlb2: nop\nc2 = 6\n" % e))
+    return out
+
+
+def definition_chain(rng):
+    """up to 58 definitions that refer to one another in a chain, each through up to 7 nested prefix operators, brackets
+    or infix operators with a number; forward, backward or shuffled; used at one end - valid programs whose resolution is
+    as deep as the chain is long (a few also closed into a cycle, which must be reported)"""
+    n = rng.randint(2, 58)
+    depth_max = rng.choice([0, 1, 3, 5, 7, 7])
+    style = rng.choice(["prefix", "prefix", "infix", "mixed"])
+
+    def angle(e):
+        # '<<' and '>>' are the shift operators: keep nested angle brackets apart
+        return "<" + (" " if e[0] == "<" else "") + e + (" " if e[-1] == ">" else "") + ">"
+
+    def wrap(e):
+        for _ in range(rng.randint(0, depth_max) if rng.random() < 0.3 else depth_max):
+            k = style if style != "mixed" else rng.choice(["prefix", "infix"])
+            if k == "prefix":
+                e = rng.choice(["~", "-", "^c", "+"]) + (angle(e) if rng.random() < 0.5 else "(" + e + ")")
+            else:
+                # (a prefix operator may open an expression, not follow an infix one)
+                e = angle(rng.choice(["%s + 1", "%s & 7777", "%s _ 1", "%s * 1", "%s / 1"] + (["1 + %s", "2 * %s"] if e[0] not in "~-^+" else [])) % e)
+        return e
+    last = rng.choice(["5", "lbl", "lbl - .", ". + 2", "a1" if rng.random() < 0.5 else "5"])
+    defs = ["a%d = %s" % (i, wrap("a%d" % (i + 1))) for i in range(1, n)] + ["a%d = %s" % (n, last)]
+    order = rng.random()
+    if order < 0.3:
+        defs.reverse()
+    elif order < 0.5:
+        rng.shuffle(defs)
+    use = rng.choice([".word a1", "mov #a1, r0", ".blkb a1 & 7", "mov a1(r1), r2", ".byte a1 & 377", "x = a1\n.word x"])
+    lines = ["lbl: nop"] + defs
+    lines.insert(rng.choice([0, 1, len(lines)]), use)
+    return "\n".join(lines[:60]) + "\n"
+
+
 FAULTS += _limit_values()
 FAULTS += _operator_error_paths()[::3]          # a third of them in the fixed list; the rest are sampled below
 
@@ -372,7 +420,8 @@ def run(ctx):
                 "%d number / %d character / %d string spellings, nesting <= 8; %d planted-fault programs; harness.gen programs; each also "
                 "under 1-4 token-level and 1-4 character-level mutations (alphabet incl. NUL, CR, non-ASCII, U+0130/U+212A). In-process with the "
                 "harness handler and a 10 s watchdog; every 4th text (and every offender) also through the CLI with the bare and the graphical "
-                "handler. distinct = distinct texts; non-trivial = texts that get past the parser (ok, or failed with a compile-time report)"
+                "handler. Also (unmutated): every infix operator x 9 kinds of left x 9 kinds of right operand (numbers, constants, labels, the location counter, differences); "
+                "chains of 2-58 definitions, each through 0-7 nested operators, in any order. distinct = distinct texts; non-trivial = texts that get past the parser (ok, or failed with a compile-time report)"
                 % (len(insn_names), len(meta_names), len(NUMS), len(CHARS), len(STRS), len(FAULTS)))
     th = ctx.thorough
     d = impl.scratch_dir()
@@ -471,8 +520,17 @@ def run(ctx):
             idx += 1
             one(mutate_chars(text, rng), "valid program, characters mutated", idx)
             idx += 1
+        matrix = _operand_kind_matrix()
+        for op, text in (matrix if th else matrix[rng.randrange(5)::5]):
+            one(text, "operator x operand-kind matrix", idx)
+            idx += 1
+        for _ in range(600 if th else 150):
+            one(definition_chain(rng), "definition chain", idx)
+            idx += 1
         for sg, n in seen_sigs.items():
             ctx.count("offending outcome %s" % sg, n)
+        # the value-level reason why resolution ends: the stack of values being computed, on graphs that may be cyclic
+        thunkrun.await_stream(ctx, ctx.rng("c08-await"), 2500 if th else 500)
     finally:
         impl.drop_scratch(d)
 
